@@ -190,8 +190,11 @@ pub fn gen_fault(seed: u64, n: usize) -> Vec<Scenario> {
         sc.net.late_pct = 0;
         sc.net.fail_cost_us = *pick(&mut rng, &[0, 0, 250, 900]);
         let nf = rng.random_range(1..=4);
-        for _ in 0..nf {
-            let at_send = rng.random_range(0..30);
+        // now and then the very first probe of the trace is the one that fails: the lowest ttl ever probed is then
+        // the ttl of a probe that never went out
+        let first_fails = rng.random_range(0..4) == 0;
+        for j in 0..nf {
+            let at_send = if first_fails && j == 0 { 0 } else { rng.random_range(0..30) };
             let (op, kinds): (&str, &[&str]) = match (sc.proto.as_str(), sc.fam, sc.privileged) {
                 ("icmp", 4, _) => ("send_to", &["hostunreach", "netunreach", "invalid", "other"]),
                 ("udp", 4, true) => ("send_to", &["hostunreach", "netunreach", "other"]),
@@ -558,6 +561,42 @@ pub fn gen_cfgrun(seed: u64, n: usize) -> Vec<Scenario> {
             sc.topo.paths[0].target_silent = true;
             sc.max_recv_calls = 2_000_000;
         }
+        out.push(sc);
+    }
+    out
+}
+
+/// Route changes (C10): one responsive path replaced by another responsive path of a different length, nothing
+/// lost and rounds long enough to walk the whole path: from the round after the change the reported path length is
+/// the new distance.
+pub fn gen_grow(seed: u64, n: usize) -> Vec<Scenario> {
+    let mut rng = StdRng::seed_from_u64(seed ^ 0x5eed_0c10);
+    let mut out = Vec::new();
+    for i in 0..n {
+        let s = rng.random::<u64>();
+        let mut sc = base(&mut rng, format!("grow-{seed}-{i}"), s);
+        let d0: u8 = rng.random_range(1..=9);
+        let d1: u8 = if rng.random_range(0..4) == 0 && d0 > 1 { rng.random_range(1..d0) } else { d0 + rng.random_range(1..=4) };
+        sc.max_ttl = *pick(&mut rng, &[13, 16, 30, 64]);
+        sc.first_ttl = if rng.random_range(0..3) == 0 { rng.random_range(1..=d0.min(d1)) } else { 1 };
+        sc.max_inflight = (*pick(&mut rng, &[1, 2, 3, 8, 24])).max(sc.first_ttl + 1);
+        let path = |no: u16, d: u8, rng: &mut StdRng| Path {
+            hops: (1..d).map(|k| Hop { addr: (no + 1) * 300 + u16::from(k), quote: rng.random_range(0..5), ..Hop::default() }).collect(),
+            dist: d,
+            target_silent: false,
+            tcp: if rng.random_bool(0.5) { "synack".into() } else { "rst".into() },
+        };
+        sc.topo = Topo { paths: vec![path(0, d0, &mut rng)], change_round: rng.random_range(1..=3), paths_after: vec![path(5, d1, &mut rng)] };
+        sc.regrow = true;
+        sc.max_rounds = sc.topo.change_round + rng.random_range(3..=5);
+        sc.net.hop_delay_us = *pick(&mut rng, &[200, 500, 1_000]);
+        sc.read_timeout_us = 1_000;
+        sc.max_round_us = 100_000;
+        sc.min_round_us = *pick(&mut rng, &[0, 20_000, 100_000]);
+        sc.grace_us = *pick(&mut rng, &[2_000, 10_000]);
+        sc.tcp_timeout_us = 100_000;
+        sc.max_samples = *pick(&mut rng, &[1, 3, 256]);
+        sc.max_flows = *pick(&mut rng, &[1, 2, 64]);
         out.push(sc);
     }
     out
